@@ -151,13 +151,14 @@ def shared_slots(sys_):
 
 class Op:
     def __init__(self, name, arity, enabled, run, inplace=False, target=None, mode='preserve', base=None,
-                 may_raise=False, consume=False, hands_back=None, always=False, oracle=None):
+                 may_raise=False, consume=False, hands_back=None, always=False, oracle=None, prefix=None):
         self.name = name; self.arity = arity; self.enabled = enabled; self.run = run
         self.inplace = inplace; self.target = target; self.mode = mode
         self.may_raise = may_raise      # numerically conditioned routine: an exception disables the transition
         self.consume = consume          # overwrite=True variants that hand self's buffers to the results: self leaves the pool
         self.always = always            # exempt from the fresh-operand reduction (probes for hidden module-level state)
         self.oracle = oracle            # optional: dense value (dense_cores layout) the first result must have, by definition
+        self.prefix = prefix            # optional: the same integrator call with fewer steps (run on fresh copies): its trajectory must be a prefix of the result (I9)
         self.hands_back = hands_back    # index of the argument that is documented to come back by identity as result 0 (the initial state heading a trajectory)
         self.base = base or name.split('(')[0]
 
@@ -216,6 +217,34 @@ def recompute_check(model, sys_, op, objs, res):
                 return [('I5:recompute-differs:%s' % op.base,
                          '%s on the live operands differs from the same call on fresh contiguous copies of them by %.3e (layout, identity or hidden state dependence)'
                          % (op.name, np.linalg.norm((va - vb).ravel())))]
+    return []
+
+
+def prefix_check(model, sys_, op, objs, res):
+    """I9: a time stepper's trajectory is consistent with shorter runs -- entry k of the n-step trajectory equals entry k of
+    the k-step trajectory computed from fresh copies of the same operands (differential oracle, no hand-written expected value).
+    Catches trajectories whose earlier entries are rewritten by later steps (a working state appended without a copy)."""
+    from scikit_tt.tensor_train import TT
+    try:
+        fresh = [TT([np.array(c, order='C', copy=True) for c in o.cores]) for o in objs]
+        np.random.seed(12345)
+        res2 = op.prefix(sys_, *fresh)
+    except Exception as e:
+        return [('I9:prefix-run-raised:%s:%s' % (op.base, type(e).__name__), 'the shorter run of %s on fresh copies raised %r' % (op.name, e))]
+    a, b = flatten_tts(res), flatten_tts(res2)
+    if len(b) > len(a):
+        return [('I9:trajectory-prefix:%s' % op.base, '%s: the shorter run returned more states (%d) than the longer one (%d)' % (op.name, len(b), len(a)))]
+    for k_, (ta, tb) in enumerate(zip(a, b)):
+        if meta_problem(ta) is not None or meta_problem(tb) is not None or not small(ta) or not small(tb):
+            continue
+        va, vb = dense_cores(ta.cores), dense_cores(tb.cores)
+        if va.shape != vb.shape or not (np.all(np.isfinite(va)) and np.all(np.isfinite(vb))):
+            continue
+        sc = max(1.0, float(np.linalg.norm(vb.ravel())))
+        if np.linalg.norm((va - vb).ravel()) > 1e-8 * sc:
+            return [('I9:trajectory-prefix:%s' % op.base,
+                     '%s: state %d of the trajectory differs from state %d of the shorter run on the same operands by %.3e (an earlier entry was rewritten by a later step)'
+                     % (op.name, k_, k_, np.linalg.norm((va - vb).ravel())))]
     return []
 
 
@@ -299,6 +328,8 @@ def apply_transition(model, sys_, tr, check=True):
                 fails = [('I8:constructor-value:%s' % op.base, '%s does not return its defining tensor at this point of the history' % op.name)]
         if not fails and not op.inplace and getattr(model, 'recompute', True):
             fails = recompute_check(model, sys_, op, objs, res)
+        if not fails and op.prefix is not None:
+            fails = prefix_check(model, sys_, op, objs, res)
     if not fails and tgt is not None and not op.consume and meta_problem(sys_.objs[tgt]) is None and not small(sys_.objs[tgt]):
         # an in-place call grew its target beyond what can be shadowed densely: the target leaves the pool
         del sys_.objs[tgt]; del sys_.tags[tgt]; del sys_.shadows[tgt]
